@@ -894,8 +894,14 @@ func (state *RuntimeState) checkAuth(w http.ResponseWriter, r *http.Request, req
 			"looks like authtype tls keymaster or ip cert, r.tls=%+v", r.TLS)
 		if len(r.TLS.VerifiedChains) > 0 {
 			var authData authInfo
-			tlsAuthUser, notBefore, err :=
-				state.getUsernameIfKeymasterSigned(r.TLS.VerifiedChains)
+			var tlsAuthUser string
+			var notBefore time.Time
+			var err error
+			// keymaster issued user certs only count where they are accepted
+			if (requiredAuthType & AuthTypeKeymasterX509) != 0 {
+				tlsAuthUser, notBefore, err =
+					state.getUsernameIfKeymasterSigned(r.TLS.VerifiedChains)
+			}
 			if err == nil && tlsAuthUser != "" {
 				state.logger.Debugf(4, "Auth, Is keymastercert")
 				authData.AuthType = authData.AuthType | AuthTypeKeymasterX509
